@@ -20,6 +20,8 @@ type c10Case struct {
 	Path    string          `json:"path"`
 	SubKeys []string        `json:"subkeys,omitempty"`
 	Pol     int             `json:"order_policy"`
+	Sep     string          `json:"field_separator,omitempty"` // SetFieldSeparator in force (empty = default ':')
+	Twin    json.RawMessage `json:"twin_map_with_distinct_leaves,omitempty"` // twin case: the same template with all leaves distinct
 }
 
 func init() {
@@ -29,6 +31,16 @@ func init() {
 		m := fromJSON(string(k.Map)).(map[string]interface{})
 		v := fromJSON(string(k.Val))
 		run := func() { c10Check(c, m, k.Key, v, k.AsStr, k.Path, k.SubKeys, ch) }
+		if len(k.Twin) > 0 {
+			run = func() {
+				c10Twin(c, fromJSON(string(k.Twin)).(map[string]interface{}), fromJSON(string(k.Map)).(map[string]interface{}), k.Key, v, k.AsStr, k.Path, ch)
+			}
+		}
+		if k.Sep != "" {
+			mxj.SetFieldSeparator(k.Sep)
+			c10Sep = k.Sep
+			defer func() { mxj.SetFieldSeparator(); c10Sep = "" }()
+		}
 		if len(ch) > 0 {
 			rt.OrderPolicy = rt.PolicyChoose
 			runWith(ch, run)
@@ -39,6 +51,9 @@ func init() {
 		rt.OrderPolicy = rt.PolicySorted
 	}})
 }
+
+// c10Sep: the field separator in force for the current case ("" = the default ':').
+var c10Sep string
 
 // refLocs walks plain/wildcard steps like refPlain but reports the location of every value reached.
 // Locations: "/key" for a map entry, "/#i" for a list member.
@@ -224,7 +239,7 @@ func c10Check(c *Ctx, m map[string]interface{}, key string, val interface{}, asS
 	before := deepCopy(m).(map[string]interface{})
 	mv := mxj.Map(m)
 	cas := func() interface{} {
-		return c10Case{Map: json.RawMessage(jsonOf(before)), Key: key, Val: json.RawMessage(jsonOf(val)), AsStr: asStr, Path: path, SubKeys: subkeys, Pol: rt.OrderPolicy}
+		return c10Case{Map: json.RawMessage(jsonOf(before)), Key: key, Val: json.RawMessage(jsonOf(val)), AsStr: asStr, Path: path, SubKeys: subkeys, Pol: rt.OrderPolicy, Sep: c10Sep}
 	}
 	steps := strings.Split(path, ".")
 	shape := "plain"
@@ -366,9 +381,110 @@ func keysOf(m map[string]bool) []string {
 	return sortedCopy(r)
 }
 
+// c10Twin: differential oracle for Maps that already hold the new value somewhere. m0 and m1 are the same
+// template, m0 with all leaves distinct ("v1", "v2", ...: the Maps c10Check judges), m1 with every second leaf
+// equal to the new value. Without sub-keys which values a path addresses depends on keys and structure only,
+// so the same call must return the same count on both and leave m1 as it leaves m0, leaf for leaf; and when
+// the path ends in k, ValuesForPath(path) afterwards yields exactly count copies of v on m1 as well.
+func c10Twin(c *Ctx, m0, m1 map[string]interface{}, key string, val interface{}, asStr, path string, choices []int) bool {
+	before1 := deepCopy(m1).(map[string]interface{})
+	before0 := deepCopy(m0).(map[string]interface{})
+	cas := func() interface{} {
+		return c10Case{Map: json.RawMessage(jsonOf(before1)), Twin: json.RawMessage(jsonOf(before0)), Key: key, Val: json.RawMessage(jsonOf(val)), AsStr: asStr, Path: path, Pol: rt.OrderPolicy}
+	}
+	nv := func() interface{} {
+		if asStr != "" {
+			return asStr
+		}
+		return map[string]interface{}{key: deepCopy(val)}
+	}
+	var c0, c1 int
+	var e0, e1 error
+	st, pan := protect(func() {
+		c0, e0 = mxj.Map(m0).UpdateValuesForPath(nv(), path)
+		c1, e1 = mxj.Map(m1).UpdateValuesForPath(nv(), path)
+	})
+	c.S.Transitions += 2
+	shape := "already-holds-new-value"
+	if pan {
+		c.Violate("Map.UpdateValuesForPath", "panic", shape, cas, choices, st)
+		return true
+	}
+	detail := func(s string) string {
+		return fmt.Sprintf("%s\n   before=%s\n    after=%s\n   newVal=%s path=%q count=%d err=%v\n   twin (all leaves distinct): before=%s after=%s count=%d err=%v", s, dump(before1), dump(m1), dump(nv()), path, c1, e1, dump(before0), dump(m0), c0, e0)
+	}
+	if (e0 == nil) != (e1 == nil) || c0 != c1 {
+		c.Violate("Map.UpdateValuesForPath", "count", shape, cas, choices, detail("the count differs from the count of the same call on the same Map with all leaves distinct: the count is the number of values the call replaces, whatever they held"))
+		return true
+	}
+	// m0's result with the leaves m1 started with: every even-numbered leaf "vN" reads "NEW"
+	var relabel func(v interface{}) interface{}
+	relabel = func(v interface{}) interface{} {
+		switch x := v.(type) {
+		case map[string]interface{}:
+			o := make(map[string]interface{}, len(x))
+			for k, e := range x {
+				o[k] = relabel(e)
+			}
+			return o
+		case []interface{}:
+			if x == nil {
+				return x
+			}
+			o := make([]interface{}, len(x))
+			for i, e := range x {
+				o[i] = relabel(e)
+			}
+			return o
+		case string:
+			if len(x) > 1 && x[0] == 'v' {
+				if n, err := strconv.Atoi(x[1:]); err == nil && n%2 == 0 {
+					return "NEW"
+				}
+			}
+		}
+		return v
+	}
+	if want := relabel(m0); !deepEq(want, map[string]interface{}(m1)) {
+		c.Violate("Map.UpdateValuesForPath", "only-addressed-values", shape, cas, choices, detail("the Map differs from what the same call leaves of the same Map with all leaves distinct (leaf for leaf): expected "+dump(want)))
+		return true
+	}
+	steps := strings.Split(path, ".")
+	if e1 == nil && steps[len(steps)-1] == key {
+		var vs []interface{}
+		var err error
+		st, pan = protect(func() { vs, err = mxj.Map(m1).ValuesForPath(path) })
+		c.S.Transitions++
+		ok := !pan && err == nil && len(vs) == c1
+		for _, x := range vs {
+			if !deepEq(x, val) {
+				ok = false
+			}
+		}
+		if !ok {
+			c.Violate("Map.UpdateValuesForPath", "count-copies", shape, cas, choices, detail(fmt.Sprintf("ValuesForPath afterwards=%v %v %s", dumpSeq(vs), err, st)))
+			return true
+		}
+	}
+	c.Outcome(fmt.Sprintf("twin|%d|%s", c1, dump(map[string]interface{}(m1))))
+	return c1 > 0
+}
+
+// halfNewLeaves: numbered string leaves, every second one already equal to the new value "NEW".
+func halfNewLeaves() func() interface{} {
+	n := 0
+	return func() interface{} {
+		n++
+		if n%2 == 0 {
+			return "NEW"
+		}
+		return "v" + strconv.Itoa(n)
+	}
+}
+
 func c10Run(c *Ctx) {
 	mustBeDefault(c)
-	c.S.Rule = "cases = (Map, new value, path, sub-keys): every Map template with <= N nodes over keys {a,ab,k} (lists, list-in-list, empty containers) x new value {k|ab : \"NEW\" | {\"nk\":\"NEW\"}} given as map and as 'key:value[:type]' string x every path of <= 3 steps over {a,b,k,z,*} (both addressing forms) x sub-key sets {none, presence, negated presence, value, typed}; oracle is relational on a deep copy taken before the call: frame, location (against reference addressed set), sub-keys, count, count-copies. Each case under ascending and descending map order; cases with wildcards additionally under every single order deviation (E-choice bound 1) for the smaller Maps. Updated Maps are retained (last 4) and re-checked deeply after every later call. non-trivial = count > 0."
+	c.S.Rule = "cases = (Map, new value, path, sub-keys): every Map template with <= N nodes over keys {a,ab,k} (lists, list-in-list, empty containers) x new value {k|ab : \"NEW\" | {\"nk\":\"NEW\"}} given as map and as 'key:value[:type]' string (for the value \"NEW\" also on Maps in which every second leaf already holds \"NEW\", as an earlier update leaves them, judged against the same call on the twin Map with all leaves distinct: same count, same Map leaf for leaf, count copies afterwards; and the string form again under the field separators {|, ::, =>, U+00A7} with a value that contains ':', Maps one node smaller, paths of <= 2 steps) x every path of <= 3 steps over {a,b,k,z,*} (both addressing forms) x sub-key sets {none, presence, negated presence, value, typed}; oracle is relational on a deep copy taken before the call: frame, location (against reference addressed set), sub-keys, count, count-copies. Each case under ascending and descending map order; cases with wildcards additionally under every single order deviation (E-choice bound 1) for the smaller Maps. Updated Maps are retained (last 4) and re-checked deeply after every later call. non-trivial = count > 0."
 	c.S.Assumptions = []string{"insertion of key k into an addressed map that lacks it is accepted (and counted iff it happens)", "addressed set computed by the reference walker (one-level reading; both readings accepted for list-in-list Maps)"}
 	n1, n2, ech := 5, 5, 4
 	if c.Thorough {
@@ -438,9 +554,46 @@ func c10Run(c *Ctx) {
 					}
 					return nt
 				})
+				if ni == 0 || ni == 3 {
+					// the same on a Map in which every second leaf already holds the new value (a state an
+					// earlier update has left behind): the count is the number of values the call addresses
+					c.S.States++
+					c.S.Evaluations++
+					explore(nodes, strings.Contains(p, "*"), func(ch []int) bool {
+						return c10Twin(c, inst(t, strLeaves()).(map[string]interface{}), inst(t, halfNewLeaves()).(map[string]interface{}), v.key, v.val, v.asStr, p, ch)
+					})
+				}
 			}
 		}
 	})
+	// new value given as a string under the alternative field separators SetFieldSeparator documents for it, incl.
+	// separators longer than one byte and a value that contains the default separator
+	for _, sep := range []string{"|", "::", "=>", "\u00a7"} {
+		vals := []nv{{"k", "NEW", "k" + sep + "NEW"}, {"k", 7.5, "k" + sep + "7.5" + sep + "num"}, {"k", "a:b", "k" + sep + "a:b"}, {"k", true, "k" + sep + "true" + sep + "bool"}, {"ab", "NEW", "ab" + sep + "NEW"}}
+		sepApplied := false
+		g.rootMaps(n1-1, func(t *T) {
+			nodes := countNodes(t)
+			for _, v := range vals {
+				for _, p := range paths {
+					if strings.Count(p, ".") > 1 || !c.Mine() {
+						continue
+					}
+					if !sepApplied {
+						mxj.SetFieldSeparator(sep)
+						c10Sep = sep
+						sepApplied = true
+					}
+					c.S.States++
+					c.S.Evaluations++
+					explore(nodes, strings.Contains(p, "*"), func(ch []int) bool {
+						return c10Check(c, inst(t, strLeaves()).(map[string]interface{}), v.key, v.val, v.asStr, p, nil, ch)
+					})
+				}
+			}
+		})
+		mxj.SetFieldSeparator()
+		c10Sep = ""
+	}
 	// wide family: more than 32 / 64 addressed values
 	for _, width := range []int{31, 32, 33, 63, 64, 65, 70} {
 		for _, p := range []string{"l.k", "l", "m.*.k", "m.*", "*.k"} {
